@@ -224,6 +224,15 @@ func (e *Engine) verifyFunction(fn *ssa.Function) (rep *FnReport) {
 			}
 		}
 	}
+	if ct != nil && fn.Blocks != nil {
+		// a callsite clause that applies to no call of the function says nothing: the call it was written for has
+		// disappeared or been renamed (reported like any other contract clause that no longer binds)
+		for _, cl := range ct.clauses("callsite") {
+			if !cl.Assumed && !c.callsiteMatched[cl] {
+				fr.bindFailure(cl, fmt.Errorf("callsite %s: no call of the function matches this clause", cl.Label))
+			}
+		}
+	}
 	rep.Obligations = c.obls
 	rep.Unsupported = c.unsupportedNotes
 	rep.Assumed = sortedKeys(c.assumedExternal)
